@@ -630,8 +630,17 @@ def _verify_rest(c, variant, thunk, stats, obs, ob, info, deadline, t_start):
             e = p.value.value
             if not any(isinstance(e, t) for t in declared):
                 if o.status != "refuted":
-                    _merge(o, "refuted", "undeclared %s escapes: %s" % (type(e).__name__, str(e)[:120]))
+                    # exploration treats a branch the solver could not decide as feasible: the path
+                    # condition is decided here (second-opinion solvers included) before an escaping
+                    # exception counts as a violation
                     r, model, backend, dt = solve(p.constraints, c.timeout_ms, stats)
+                    o.solver_s += dt
+                    if r == "unsat":
+                        continue
+                    if r != "sat":
+                        _merge(o, "undecided", "feasibility of the path raising %s is unknown to the solvers" % type(e).__name__)
+                        continue
+                    _merge(o, "refuted", "undeclared %s escapes: %s" % (type(e).__name__, str(e)[:120]))
                     o.model = {n: model_value(model, t) for n, t in p.symbols.items()} if model is not None else None
                     o.extra_path = p
     for et, pred in declared.items():
